@@ -24,10 +24,17 @@ import (
 )
 
 type c09KillCase struct {
-	Rate      int `json:"rate_per_s"`
-	AfterResp int `json:"kill_after_responses"`
-	HoldMs    int `json:"then_wait_ms"`
+	Rate      int  `json:"rate_per_s"`
+	AfterResp int  `json:"kill_after_responses"`
+	HoldMs    int  `json:"then_wait_ms"`
+	Fifo      bool `json:"output_is_a_stalled_fifo,omitempty"` // the reader of the output does not read until the kill
 }
+
+// c09KillWorkers is the -max-workers of the killed attacks. At any instant at
+// most one completed response per worker is not yet handed to the result pump
+// and the pump holds at most one result it has not finished writing, so
+// responses_completed <= results_written + workers + 1.
+const c09KillWorkers = 8
 
 type c09KillObs struct {
 	Whole        int    `json:"whole_records"`
@@ -54,25 +61,75 @@ func c09KillOnce(c *Ctx, dir string, cs c09KillCase) (obs c09KillObs, err error)
 	}
 	out := filepath.Join(dir, "killed.gob")
 	_ = os.Remove(out)
-	cmd := exec.Command(c.Bin("vegeta"), "attack", "-targets", targets, "-rate", fmt.Sprint(cs.Rate), "-duration", "0", "-output", out, "-name", "kill")
+	if cs.Fifo {
+		if err = syscall.Mkfifo(out, 0o644); err != nil {
+			return
+		}
+	}
+	cmd := exec.Command(c.Bin("vegeta"), "attack", "-targets", targets, "-rate", fmt.Sprint(cs.Rate), "-duration", "0", "-output", out, "-name", "kill",
+		"-workers", "2", "-max-workers", fmt.Sprint(c09KillWorkers))
 	var stderr bytes.Buffer
 	cmd.Stderr = &stderr
 	if err = cmd.Start(); err != nil {
 		return
 	}
+	var fifo *os.File
+	if cs.Fifo {
+		// opening the read side lets the attack open its output; nothing is read until after the kill
+		opened := make(chan *os.File, 1)
+		go func() {
+			f, _ := os.OpenFile(out, os.O_RDONLY, 0)
+			opened <- f
+		}()
+		select {
+		case fifo = <-opened:
+		case <-time.After(30 * time.Second):
+			_ = cmd.Process.Kill()
+			_ = cmd.Wait()
+			if w, e := os.OpenFile(out, os.O_WRONLY|syscall.O_NONBLOCK, 0); e == nil {
+				w.Close()
+			}
+			return obs, fmt.Errorf("the attack never opened its output fifo")
+		}
+		if fifo == nil {
+			_ = cmd.Process.Kill()
+			_ = cmd.Wait()
+			return obs, fmt.Errorf("cannot open the output fifo")
+		}
+		defer fifo.Close()
+	}
 	deadline := time.Now().Add(60 * time.Second)
-	for served.Load() < int64(cs.AfterResp) && time.Now().Before(deadline) {
-		time.Sleep(time.Millisecond)
+	if cs.Fifo {
+		// wait until the stalled output has stalled the attack: no new response for 300ms
+		last, since := int64(-1), time.Now()
+		for time.Now().Before(deadline) {
+			if n := served.Load(); n != last {
+				last, since = n, time.Now()
+			} else if n > 0 && time.Since(since) > 300*time.Millisecond {
+				break
+			}
+			time.Sleep(5 * time.Millisecond)
+		}
+	} else {
+		for served.Load() < int64(cs.AfterResp) && time.Now().Before(deadline) {
+			time.Sleep(time.Millisecond)
+		}
 	}
 	obs.ServedAtMark = served.Load()
 	time.Sleep(time.Duration(cs.HoldMs) * time.Millisecond)
 	obs.ServedAtKill = served.Load()
 	_ = cmd.Process.Signal(syscall.SIGKILL)
 	_ = cmd.Wait()
-	if obs.ServedAtMark < int64(cs.AfterResp) {
+	if !cs.Fifo && obs.ServedAtMark < int64(cs.AfterResp) {
 		return obs, fmt.Errorf("only %d responses within the watchdog: %s", obs.ServedAtMark, tail(stderr.String(), 300))
 	}
-	b, rerr := os.ReadFile(out)
+	var b []byte
+	var rerr error
+	if cs.Fifo {
+		b, rerr = io.ReadAll(fifo) // what the attack had written before it was killed is still in the pipe
+	} else {
+		b, rerr = os.ReadFile(out)
+	}
 	if rerr != nil {
 		return obs, rerr
 	}
@@ -103,13 +160,13 @@ func c09AttackKill(c *Ctx, run *ev.Run) {
 		return
 	}
 	defer os.RemoveAll(dir)
-	cases := []c09KillCase{{10, 8, 1200}, {1000, 1500, 300}, {25, 10, 1000}, {400, 600, 400}, {2000, 4000, 200}, {50, 20, 1000}}
+	cases := []c09KillCase{{10, 8, 1200, false}, {1000, 1500, 300, false}, {2000, 0, 0, true}, {25, 10, 1000, false}, {400, 600, 400, false}, {500, 0, 50, true}, {2000, 4000, 200, false}, {50, 20, 1000, false}}
 	n := c.Pick(3, len(cases))
 	for i := 0; i < n; i++ {
 		cs := cases[i]
 		// a verdict needs the same failure in 2 of up to 3 runs: the instant of a
 		// SIGKILL and machine load are not under the harness' control
-		torn, missing := 0, 0
+		torn, missing, unaccounted := 0, 0, 0
 		var last c09KillObs
 		for attempt := 0; attempt < 3; attempt++ {
 			obs, err := c09KillOnce(c, dir, cs)
@@ -125,14 +182,17 @@ func c09AttackKill(c *Ctx, run *ev.Run) {
 				torn++
 				bad = true
 			}
-			if int64(obs.Whole) < obs.ServedAtMark {
+			if !cs.Fifo && int64(obs.Whole) < obs.ServedAtMark {
 				missing++
 				bad = true
 			}
-			if !bad || (torn < 2 && missing < 2 && attempt == 2) {
-				break
+			// conservation, valid at any instant whatever the load: every completed response is
+			// written, or held by one of the workers, or being written by the pump
+			if int64(obs.Whole) < obs.ServedAtKill-int64(c09KillWorkers+1) {
+				unaccounted++
+				bad = true
 			}
-			if torn >= 2 || missing >= 2 {
+			if !bad || torn >= 2 || missing >= 2 || unaccounted >= 2 {
 				break
 			}
 		}
@@ -141,10 +201,17 @@ func c09AttackKill(c *Ctx, run *ev.Run) {
 		if torn >= 2 {
 			run.Violate("C09/attack-killed/torn-record", fmt.Sprintf("vegeta attack -rate %d killed after %d responses: the results file (%d bytes) has %d whole records and then %q", cs.Rate, last.ServedAtKill, last.FileBytes, last.Whole, last.Tail), det)
 		}
+		if unaccounted >= 2 {
+			run.Violate("C09/attack-killed/results-held-back/"+map[bool]string{true: "stalled-output", false: "file-output"}[cs.Fifo],
+				fmt.Sprintf("vegeta attack -rate %d -max-workers %d killed: %d responses had completed, only %d results were written (at most %d can be in the hands of workers and the writer)", cs.Rate, c09KillWorkers, last.ServedAtKill, last.Whole, c09KillWorkers+1), det)
+		}
 		if missing >= 2 {
 			run.Violate("C09/attack-killed/results-not-written-as-they-arrive", fmt.Sprintf("vegeta attack -rate %d: %d responses had completed %d ms before the kill, the results file (%d bytes) holds %d whole records", cs.Rate, last.ServedAtMark, cs.HoldMs, last.FileBytes, last.Whole), det)
 		}
-		run.Distinct(fmt.Sprintf("attack-kill:%d:%d", cs.Rate, cs.AfterResp))
+		run.Distinct(fmt.Sprintf("attack-kill:%d:%d:%v", cs.Rate, cs.AfterResp, cs.Fifo))
+		if cs.Fifo {
+			run.Count("attack_kill_runs_with_stalled_output", 1)
+		}
 		run.Sample(det)
 	}
 }
